@@ -2,6 +2,7 @@ package main
 
 import (
 	"go/token"
+	"go/types"
 
 	"golang.org/x/tools/go/ssa"
 )
@@ -307,6 +308,44 @@ func c37(c *Ctx) {
 			b, ok2 := app.Call.Args[0].(*ssa.UnOp)
 			return l.Call.Args[0] == app.Call.Args[0] || ok1 && ok2 && a.X == b.X
 		}, token.LSS, size))
+	})
+	c.Ob("entries-per-weight", "R7", "newRing: an endpoint receives entries only while the number of entries created so far is strictly below the running target, the target grows by scale x the endpoint's normalised weight per endpoint, and the created count grows by one per entry", 3, func() {
+		nr := c.fn(rhp, "newRing")
+		var app *ssa.Call
+		for _, in := range instrsWhere(nr, func(in ssa.Instruction) bool {
+			call, ok := in.(*ssa.Call)
+			return ok && BuiltinCall("append")(&call.Call)
+		}) {
+			app = in.(*ssa.Call)
+		}
+		if !c.Expect(app != nil, nil, nr, "entries-appended", "no ring entry append found") {
+			return
+		}
+		isF := func(v ssa.Value) bool {
+			b, ok := v.Type().Underlying().(*types.Basic)
+			return ok && b.Kind() == types.Float64
+		}
+		var cur, tgt ssa.Value
+		for _, fc := range FactsAt(app) {
+			if fc.Kind == "cmp" && fc.Op == token.LSS && isF(fc.X) && isF(fc.Y) {
+				cur, tgt = fc.X, fc.Y
+			}
+		}
+		if !c.Expect(cur != nil, app, nr, "strictly-below-target", "entries are not created under 'created < target' (a non-strict test gives every endpoint one entry too many)") {
+			return
+		}
+		tb, ok := tgt.(*ssa.BinOp)
+		c.Expect(ok && tb.Op == token.ADD && BinOpV(token.MUL, AnyV, FieldLoad(c.field(rhp, "endpointInfo", "scaledWeight")))(tb.Y), app, nr, "target-grows-by-scale-times-weight", "the per-endpoint target is not previous target + scale x normalised weight")
+		cp, ok := cur.(*ssa.Phi)
+		okInc := false
+		if ok {
+			for _, e := range cp.Edges {
+				if BinOpV(token.ADD, func(v ssa.Value) bool { return v == cur }, ConstNum(1))(e) {
+					okInc = true
+				}
+			}
+		}
+		c.Expect(okInc, app, nr, "created-count-grows-by-one-per-entry", "the created-entries count is not incremented by one per appended entry")
 	})
 	c.Ob("wrap-and-sorted", "R2", "ring.pick: sort.Search over len(items) with predicate items[i].hash >= h, index reset to 0 when it equals len(items); ring.next = (idx+1) mod len; items written only in newRing, sorted by hash, idx assigned after the sort in order", 9, func() {
 		rp := c.fn(rhp, "ring.pick")
